@@ -123,6 +123,17 @@ CLAIMED = {
              "session can return to the default session (documented precondition). --reset / --with-hooks outside.",
         ref="§4 C09", technique="symbolic execution of the real scanner over symbolic transition graphs (CrossHair + z3)",
     ),
+    "C10": dict(
+        text="Bounded symbolic execution (CrossHair + z3) of the real ServicesScanner.main/perform_scan and ScanIdentifiers.main/perform_scan against a stub "
+             "ECU whose answers are symbolic: per probed service id the 'implemented' flag, not-supported code, the outcome of each of the four probe lengths "
+             "(length error, other negative code incl. sub-function codes, positive, timeout, illegal reply) and 'session change succeeds' are symbolic; the "
+             "reported (session, service) set equals the reference classification, every id is probed with the documented PDUs in the session claimed, "
+             "skipped ids are never probed, response ids only when asked. Identifier scan: start/end symbolic in a window, outcome and skip flag of one id "
+             "symbolic: the probed PDUs (sub-function byte for 0x31, 7-bit clamp for 0x27, payload) and the positive/abnormal/timeout counters equal the reference.",
+        note="Trusted: CrossHair, z3. Compositional: one probed id per obligation (the loop carries only the result set from id to id); other ids excluded through the "
+             "real skip option; scanner config objects are plain namespaces; check-session recovery and --reset outside; skip-map parsing is C20's subject.",
+        ref="§4 C10", technique="symbolic execution of the real scanners over symbolic ECU answers (CrossHair + z3)",
+    ),
     "C02": dict(
         text="Bounded symbolic execution (CrossHair + z3) of the real UDSResponse.parse_dynamic / from_pdu / pdu code: for every first byte "
              "0x00-0xFF and every total length in the stated bound, with all remaining bytes symbolic, every path is explored and the "
